@@ -4,7 +4,9 @@
    recovery or from the packet parser is an input of the op), vocabulary in model/TimersSpec.v,
    proofs in proofs/TimersP.v.  All theorems quantify over ALL op sequences that begin with
    connect() on a client or with a first receive_datagram() on a server. *)
-From AQ Require Import lib.Base model.Timers model.TimersSpec proofs.TimersP.
+From AQ Require Import lib.Base model.Timers model.TimersSpec proofs.TimersP model.TimersFull model.TimersFullSpec proofs.TimersFullP.
+From AQ Require model.RecBase model.Recovery proofs.TimersFullLink model.AckQueue proofs.TimersFullAck.
+From AQ Require Import gen.C12Consts model.RangeSet.
 
 (* Until termination _close_at is set: get_timer() does not raise (the comparison with None is
    unreachable) and returns a finite time not later than _close_at, whatever the ack / loss /
@@ -105,3 +107,132 @@ Print Assumptions end_states_send_nothing.
 Theorem close_begins : forall k c, c_close_event c = None -> began (do_close k c).
 Proof. exact began_do_close. Qed.
 Print Assumptions close_begins.
+
+(* ---------------------------------------------------------------------------------------------------------------
+   The composed model (model/TimersFull.v): the timer sources are STATE -- per-space ack_at / loss_time /
+   ack_eliciting_in_flight / discarded, peer_completed_address_validation, _pto_count, _pacing_at -- armed and cleared as
+   the code does it; get_timer() is Timers.get_timer applied to the sources computed from that state.  [reset] = does
+   datagrams_to_send clear _pacing_at first (docs/C09-fix-1.patch; the tree is probed: gen/C09Consts.PACING_RESET). *)
+
+(* Every run of the composed model is a run of model/Timers.v with the same per-call results and the same connection
+   state: the 11 theorems above hold of it (timer_defined: for the sources it computes). *)
+Theorem full_refines_timers : forall reset client o ops, ffirst_op client o ->
+  exists o' ops', first_op client o' /\
+    fst (frun reset (full_init client) (o :: ops)) = fst (run (conn_init client) (o' :: ops')) /\
+    f_c (snd (frun reset (full_init client) (o :: ops))) = snd (run (conn_init client) (o' :: ops')).
+Proof. exact full_refines_timers_lemma. Qed.
+Print Assumptions full_refines_timers.
+
+(* timer_sources_sound.  In every reachable state that is not TERMINATED: _close_at = Some d; in CLOSING / DRAINING
+   get_timer() = d; otherwise get_timer() = v where (v, s) = timer_src: v is a lower bound of every armed source
+   (_close_at, each space's ack_at, the loss detection time, _pacing_at) and IS the source s, which is legitimate:
+   an ack_at only of a space that is not discarded and owes an ACK (an ack-eliciting packet was recorded since the
+   last ACK frame); a loss_time only of a non-discarded space, the one _get_loss_space() picks; the PTO deadline only
+   when no space has a loss_time and (the peer has not completed address validation or a non-discarded space has
+   ack-eliciting packets in flight).  Every space satisfies sp_ok: a discarded space has ack_at = loss_time = None and
+   nothing in flight, and ack_at is armed exactly while an ACK is owed. *)
+Theorem timer_sources_sound : forall reset client o ops ptod, ffirst_op client o ->
+  let f := snd (frun reset (full_init client) (o :: ops)) in
+  c_state (f_c f) <> TERMINATED ->
+  exists d, c_close_at (f_c f) = Some d /\
+    (is_end (c_state (f_c f)) = true -> fst (fget_timer ptod f) = Ok (Some d)) /\
+    (is_end (c_state (f_c f)) = false ->
+       fst (fget_timer ptod f) = Ok (Some (fst (timer_src ptod d f))) /\
+       src_legit ptod d f (fst (timer_src ptod d f)) (snd (timer_src ptod d f)) /\
+       lower_bound ptod d f (fst (timer_src ptod d f))) /\
+    Forall sp_ok (f_sp f).
+Proof. exact timer_sources_sound_lemma. Qed.
+Print Assumptions timer_sources_sound.
+
+(* timer_progress (see progress_of).  Reachable live state, get_timer() = v from source s; the adapter fires
+   handle_timer(v) and transmits datagrams_to_send(v).  s = _close_at: TERMINATED.  s = loss_time of space i:
+   _detect_loss ran on exactly that space, which is not discarded (its new loss_time is the value _detect_loss computed;
+   later than v in exact arithmetic: loss_time_advances_exact; floats: C19's O3(a)).  s = PTO: _pto_count + 1 and a probe
+   is scheduled.  s = ack_at of space i: provided the ordinary branch is taken and the packet of that space can be started
+   and has room for the frame (ack_can_send: keys, no QuicPacketBuilderStop before it, for the application space
+   _handshake_complete) the ACK is written and ack_at = None afterwards -- without that premise it can stay (observation
+   O1, and a server holding 0-RTT data before the handshake completes).  s = _pacing_at: provided the pacer answers None
+   or a time after now, and provided (reset = true, i.e. the fix) or _write_application is reached and consults the
+   pacer: afterwards the connection is closing or _pacing_at is None or later than v. *)
+Theorem timer_progress : forall reset client o ops ptod pto3 te w d v s, ffirst_op client o ->
+  let f := snd (frun reset (full_init client) (o :: ops)) in
+  c_close_at (f_c f) = Some d -> is_end (c_state (f_c f)) = false -> timer_src ptod d f = (v, s) ->
+  progress_of reset ptod pto3 te w f v s.
+Proof. exact timer_progress_lemma. Qed.
+Print Assumptions timer_progress.
+
+(* timer_progress_pacing_refuted.  The code as it is (reset = false): there is a server history (stale_history) after
+   which get_timer() = v = _pacing_at in a CONNECTED state, and firing handle_timer(v); datagrams_to_send(v) --
+   _write_handshake raises QuicPacketBuilderStop under the anti-amplification limit, _write_application is not reached
+   -- returns nothing and leaves the connection in exactly the same state with get_timer() = v again: honouring
+   get_timer() loops forever (spin n = the state after n rounds) until some other input arrives.
+   Replayed on the real QuicConnection by docs/C09-repro-pacing.py. *)
+Theorem timer_progress_pacing_refuted :
+  exists ops ptod d v,
+    let f := snd (frun false (full_init false) ops) in
+    (exists o t, ops = o :: t /\ ffirst_op false o) /\
+    c_close_at (f_c f) = Some d /\ c_state (f_c f) = CONNECTED /\
+    timer_src ptod d f = (v, SrcPacing) /\ pacer_sane v stale_send /\
+    fst (fstep false f (FGetTimer ptod)) = RTimer (Some v) /\
+    let f0 := snd (fstep false f (FGetTimer ptod)) in
+    fst (frun false f0 (stale_loop ptod v)) = [RUnit; RSent SNone; RTimer (Some v)] /\
+    forall n, spin false n (stale_loop ptod v) f0 = f0.
+Proof. exact timer_progress_pacing_refuted_lemma. Qed.
+Print Assumptions timer_progress_pacing_refuted.
+
+(* With the reset (docs/C09-fix-1.patch) the same history does not spin: one round clears _pacing_at and the next
+   get_timer() is the PTO deadline. *)
+Theorem timer_progress_pacing_fixed :
+  let f := snd (frun true (full_init false) stale_history) in
+  let f0 := snd (fstep true f (FGetTimer 601)) in
+  timer_src 601 60200 f = (202, SrcPacing) /\
+  f_pacing (snd (frun true f0 (stale_loop 601 202))) = None /\
+  fst (frun true f0 (stale_loop 601 202)) = [RUnit; RSent SNone; RTimer (Some 601)].
+Proof. exact stale_history_fixed. Qed.
+Print Assumptions timer_progress_pacing_fixed.
+
+(* Link to C08's model of recovery.py (model/Recovery.v, any congestion controller, any float interface whose `<` on
+   times is the order of the time grid): the loss detection source of the composed model -- loss_time of the first space
+   with the smallest loss_time, else the PTO deadline when the peer has not completed address validation or
+   ack-eliciting packets are in flight, else nothing -- IS Recovery.loss_detection_time on the projected recovery state,
+   with the PTO deadline VALUE _time_of_last_sent_ack_eliciting_packet + get_probe_timeout() * 2**_pto_count. *)
+Theorem loss_timer_refines_recovery : forall (C : Type) (F : RecBase.fops Z),
+  (forall a b, RecBase.fltb F a b = (a <? b)) -> forall (c : conn) (st : Recovery.rec (T:=Z) (C:=C)),
+  Recovery.loss_detection_time F st = loss_time_of (TimersFullLink.abs_rec c st) (TimersFullLink.pto_deadline F st).
+Proof. exact (fun C F => TimersFullLink.loss_time_link_lemma F). Qed.
+Print Assumptions loss_timer_refines_recovery.
+
+(* _detect_loss at now, exact arithmetic on the time grid (+, <=, < are those of Z): the loss_time it stores is None or
+   later than now -- firing the loss timer at loss_time advances it.  Not true of floats (C19's O3(a)). *)
+Theorem loss_time_advances_exact : forall (F : RecBase.fops Z), TimersFullLink.exact_arith F ->
+  forall la pth now delay l lt0 lost x, (forall y, lt0 = Some y -> now < y) ->
+  Recovery.detect_scan F la pth (now - delay) delay l lt0 = (lost, Some x) -> now < x.
+Proof. exact TimersFullLink.detect_scan_advances_lemma. Qed.
+Print Assumptions loss_time_advances_exact.
+
+(* Link to C12's model (model/AckQueue.v): under "record packet as received", _write_ack_frame and discard_space the
+   ack_at / discarded fields of a space of the composed model move exactly as AckQueue's; and the minimum C12's
+   get_timer_le is about is the fold of Timers.get_timer. *)
+Theorem ack_at_refines_ackqueue : forall s pn elic t d lt ae ow delay room r s',
+  (let capnow := CAP_ACK_NOW && (Zlen (add pn (pn + 1) (AckQueue.aq s)) >=? MAX_ACK_RANGES) in
+   ts_ack_at (ts_record (TimersFullAck.abs_ack s lt ae ow) elic t d capnow) = AckQueue.ack_at (AckQueue.record s pn elic t d) /\
+   ts_disc (ts_record (TimersFullAck.abs_ack s lt ae ow) elic t d capnow) = AckQueue.disc (AckQueue.record s pn elic t d)) /\
+  (AckQueue.write_ack s delay room = (r, s') ->
+   AckQueue.disc s' = AckQueue.disc s /\
+   match r with
+   | AckQueue.SFrame _ _ => AckQueue.ack_at s' = ts_ack_at (ts_ack_written (TimersFullAck.abs_ack s None 0 0))
+   | _ => AckQueue.ack_at s' = AckQueue.ack_at s
+   end) /\
+  (ts_ack_at (ts_discard (TimersFullAck.abs_ack s lt ae ow)) = AckQueue.ack_at (AckQueue.discard s) /\
+   ts_disc (ts_discard (TimersFullAck.abs_ack s lt ae ow)) = AckQueue.disc (AckQueue.discard s)).
+Proof.
+  exact (fun s pn elic t d lt ae ow delay room r s' =>
+    conj (TimersFullAck.record_link_lemma s pn elic t d lt ae ow)
+         (conj (TimersFullAck.write_ack_link_lemma s delay room r s') (TimersFullAck.discard_link_lemma s lt ae ow))).
+Qed.
+Print Assumptions ack_at_refines_ackqueue.
+
+Theorem get_timer_refines_ackqueue : forall srcs d,
+  fold_left (fun cur a => tmin a cur) srcs (Ok (Some d)) = Ok (Some (AckQueue.get_timer d srcs)).
+Proof. exact TimersFullAck.get_timer_link_lemma. Qed.
+Print Assumptions get_timer_refines_ackqueue.
